@@ -37,6 +37,10 @@ main(void) {
 			static widechar out[2 * MAXSTRING];
 			int n, k;
 			memset(out, 0, sizeof out);
+			/* the compiler's static error counter may still be set by an earlier failed parse (only _lou_extParseDots
+			 * clears it): flush it, so that every token is judged on its own */
+			(void)_lou_extParseDots("1", out);
+			memset(out, 0, sizeof out);
 			n = h_line[0] == 'D' ? _lou_extParseDots(h_line + 2, out) : _lou_extParseChars(h_line + 2, out);
 			printf("%c %d", h_line[0], n);
 			for (k = 0; k < n; k++) printf(" %d", out[k]);
